@@ -11,7 +11,7 @@ if os.path.exists(f"{dst}/demo"): shutil.rmtree(f"{dst}/demo")
 shutil.copytree(f"{src}/demo", f"{dst}/demo")
 if os.path.exists(f"{src}/notes.md"): shutil.copy(f"{src}/notes.md", f"{dst}/notes.md")
 confirm = ""
-for log in ("/tmp/confirm-batch1.log", "/tmp/confirm-batch2.log", "/tmp/confirm-batch3.log", "/tmp/confirm-batch4.log", "/tmp/confirm-batch5.log", "/tmp/confirm-batch6.log"):
+for log in ("/tmp/confirm-batch1.log", "/tmp/confirm-batch2.log", "/tmp/confirm-batch3.log", "/tmp/confirm-batch4.log", "/tmp/confirm-batch5.log", "/tmp/confirm-batch6.log", "/tmp/confirm-batch7.log"):
     if os.path.exists(log):
         for l in open(log):
             if l.startswith(f"CONFIRM /tmp/seed-{prop} {n} "):
